@@ -569,7 +569,7 @@ Definition live_grp (k : gkind) (e : gid * grp) : bool :=
 
 (* the sizes the harness reads through the accessor files: tcp used, udp used, tcp sockets, udp sockets,
    http / https / tcpmux routes, visitor listeners, nat-hole clients, non-empty tcp / http / tcpmux
-   groups, names, sessions, total proxies in sessions *)
+   groups, names, sessions, total proxies in sessions, sum of the sessions' portsUsedNum *)
 Definition sizes (s : sr) : list Z :=
   [ nlen (pm_used (sr_tcp s)); nlen (pm_used (sr_udp s));
     nlen (filter (is_sock 0) (sr_res s)); nlen (filter (is_sock 1) (sr_res s));
@@ -577,4 +577,5 @@ Definition sizes (s : sr) : list Z :=
     nlen (filter is_vis (sr_res s)); nlen (filter is_nat (sr_res s));
     nlen (filter (live_grp GTcp) (sr_grp s)); nlen (filter (live_grp GHttp) (sr_grp s)); nlen (filter (live_grp GMux) (sr_grp s));
     nlen (sr_names s); nlen (sr_sess s);
-    fold_right (fun e acc => nlen (ss_pxys (snd e)) + acc) 0 (sr_sess s) ].
+    fold_right (fun e acc => nlen (ss_pxys (snd e)) + acc) 0 (sr_sess s);
+    fold_right (fun e acc => ss_used (snd e) + acc) 0 (sr_sess s) ].
